@@ -97,3 +97,98 @@ K('C09.f.dbgrid.skeleton', property='C09', engine='symex', harness='C09/dbgrid_s
   out='the Db part itself (Db::_deserialize), the text layer, other dimensions',
   assumptions=['the space dimension announced by the file is 2 (a valid count); cos/sin uninterpreted'],
   stubs=_SKEL_STUBS)
+
+# ---- C09.f2: Db::_deserialize control skeleton (harness/C09/db_skel.cpp)
+_DB_TUS = ['src/Db/Db.cpp', 'src/Enum/Enums.cpp', 'src/Basic/AStringable.cpp', 'src/Basic/ASerializable.cpp']
+_DBSKEL_STUBS = [
+    'ASerializable::_recordRead<int>: first call the column count, second call the sample count (pre-drawn arbitrary ints), or fails (pre-drawn flag)',
+    'ASerializable::_recordReadVec<String>: succeeds (skeleton kernel: nvalues empty strings appended) or fails (pre-drawn flag); string contents outside the kernel',
+    'ASerializable::_recordReadVecInPlace<double>: succeeds (skeleton kernel: stores nvalues pre-drawn values through the iterator and advances it) or fails',
+    'locatorIdentify: pre-drawn return code 0/1 and index 0..3 per locator, type ELoc::UNKNOWN (decoding itself: C09.g)',
+    'Db::resetDims, Db::_loadData(ELoadBy, bool, VectorDouble), Db::setNameByUID, Db::setLocatorByUID: recorders of their arguments',
+    'Db::_clear: empty (locator tables not built: the ELoc enumeration needs static constructors)',
+    'strlen (solver build only): byte loop (String temporaries built from title literals are executed)',
+    'std::istream argument: reference to raw storage, never dereferenced', 'messerr: empty',
+]
+K('C09.f2.db.counts', property='C09', engine='symex', harness='C09/db_skel.cpp', entry='k_db_counts', tus=_DB_TUS,
+  defines={'all': {'VF_COUNTS': 1, 'VF_NCOL': 2, 'VF_NECH': 2}},
+  bounds={'quick': 'column and sample counts read from the file: arbitrary ints; every record read may fail; kernel stops at the sizing of the value buffer'},
+  timeout_ms={'quick': 60000, 'thorough': 300000}, validate={'quick': 20, 'thorough': 40}, validate_doubles='dyadic',
+  what='Db::_deserialize up to the sizing of its value buffer allvalues(nech * ncol): both counts must have been range-checked '
+       '(non-negative, product representable in int) before; a true return that sizes nothing must have dimensioned the Db with non-negative counts',
+  out='plausibility of large positive counts (memory exhaustion); string contents',
+  assumptions=[],
+  stubs=_DBSKEL_STUBS + ['VectorT<double>::VectorT(size_type, const double&): probe asserting the range check, then stops the kernel (harness exception)'])
+for _nc, _ne, _tiers in ((2, 2, ('quick', 'thorough')), (3, 3, ('thorough',))):
+    K('C09.f2.db.skeleton.%dx%d' % (_nc, _ne), property='C09', engine='symex', harness='C09/db_skel.cpp', entry='k_db_skeleton', tus=_DB_TUS,
+      defines={'all': {'VF_COUNTS': 0, 'VF_NCOL': _nc, 'VF_NECH': _ne}}, tiers=_tiers,
+      bounds={'quick': 'file announcing %d columns and %d samples; every later record read succeeds or fails, every locator is identified or rejected' % (_nc, _ne)},
+      timeout_ms={'quick': 60000, 'thorough': 300000}, validate={'quick': 20, 'thorough': 40}, validate_doubles='dyadic',
+      what='Db::_deserialize control skeleton: a true return means every record was read, every locator was identified, the Db was dimensioned with the '
+           'announced counts, received the ncol*nech values read (sample-major) and every column received its name and its locator index',
+      out='the Db primitives themselves (C07), locator decoding (C09.g), the text layer, string contents',
+      assumptions=['the counts announced by the file are %d and %d (valid counts)' % (_nc, _ne)],
+      stubs=_DBSKEL_STUBS)
+
+# ---- C09.g: locatorIdentify on an arbitrary short string (harness/C09/locid.cpp); real libstdc++ std::string code executed
+# pass pipeline without instcombine (as C10.c): instcombine rewrites the 2/4/8-byte memcpy of the string code into integer loads/stores over the characters
+_LOCID_PASSES = 'function(sroa,early-cse,simplifycfg),cgscc(inline),function(sroa,early-cse,simplifycfg,adce),globaldce'
+_LOCID_STUBS = [
+    'solver build only (the native build runs the library enumeration and libc):',
+    'ELoc::getIterator, ELocIterator::hasNext / operator* / getValue / toNext, ELoc::fromValue: walk a harness table of 30 ELoc objects '
+    'with the values -1..28 in increasing order (the library keeps them in a std::map filled by static constructors, which kernels do not run)',
+    'static object ELoc::UNKNOWN: field _value written by the harness (-1)',
+    'strlen, memcmp: byte loops; tolower: ASCII; strtol(s, NULL, 10) (what glibc atoi expands to): C-locale model (white space, sign, digits)',
+    'std::string::operator=(const char*) (the dead assignment string = STRING_NA of the error path): characters written through the data pointer, '
+    'length set (the real code reads the small-string buffer as an integer to get the capacity)',
+    'messerr: empty',
+]
+for _len, _tiers in ((1, ('quick', 'thorough')), (2, ('quick', 'thorough')), (3, ('quick', 'thorough')), (4, ('thorough',)),
+                     (5, ('thorough',))):
+    K('C09.g.locid.%d' % _len, property='C09', engine='symex', harness='C09/locid.cpp', entry='k_locid',
+      tus=['src/Db/PtrGeos.cpp', 'src/Basic/String.cpp', 'src/Enum/Enums.cpp'],
+      defines={'all': {'VF_LEN': _len}}, tiers=_tiers, passes=_LOCID_PASSES, cxxflags=['-fno-inline'],
+      bounds={'quick': 'locator string of exactly %d characters, each an arbitrary byte 1..127' % _len},
+      timeout_ms={'quick': 60000, 'thorough': 300000}, validate={'quick': 40, 'thorough': 80},
+      what='REAL locatorIdentify with the real std::string code (copy, compare, size, operator[], assignment) and toLower: returns 0 or 1; '
+           'on success the type is UNKNOWN or one of the 29 role types, index >= 0 (0 for unique roles and for UNKNOWN), multiplicity flag 0/1; '
+           'a string not starting with a letter is UNKNOWN; every DEF_LOCATOR / character access in bounds',
+      out='longer strings, embedded NUL / non-ASCII bytes, numbers that overflow int in atoi, whether the keyword decoded is the one the writer meant',
+      assumptions=['characters are bytes 1..127 (a word read from a text file holds no NUL)'],
+      stubs=_LOCID_STUBS)
+
+# ---- C09.e: csv_table_read row / column accounting (harness/C09/csv.cpp, wrapper harness/C09/inst_csv.cpp)
+_CSV_STUBS = [
+    'solver build only (the native build writes the same file as text and runs the real libstdc++ / gslSafeGetline / trim / toDouble):',
+    'std::string default ctor, ctor(const char*), dtor, operator=(string&&), empty, c_str, operator==(string, string): descriptors EMPTY / LINE(l) / FIELD(l,t) / LITERAL',
+    'trim, trimRight: identity; ASerializable::buildFileName: a literal; CSVformat::getNaString: the literal "NA"',
+    'std::ifstream default ctor / open / is_open (true) / dtor, skipBOM (nothing: no byte-order mark); basic_ios::eof / operator bool: flags kept at (stream + 128), fake vtable',
+    'gslSafeGetline(istream&, String&): next line; after the last line: empty string + eofbit',
+    'std::istringstream ctor(const string&, openmode) / dtor: cursor over a LINE descriptor',
+    'std::getline(istream&, string&, char): next field of the line (eofbit with the last one); nothing left: string erased, failbit|eofbit; stream not good: failbit, string untouched',
+    'toDouble(const String&, char): a number gives its value, anything else TEST',
+    'VectorT<String>::clear / push_back / size: counter of names; VectorT<double>::clear / push_back(const double&&) / size / operator[] const: harness array of values',
+    'std::allocator<char> ctor / dtor: empty; CSVformat object: raw storage holding the five fields read (separator ",", decimal ".", NA string "NA")',
+    'harness reaches the real function through a plain-C wrapper (harness/C09/inst_csv.cpp, compiled as a translation unit of its own)',
+]
+_CSV_ASSUME = [
+    'the file is any sequence of at most VF_NLINES lines of at most VF_NTOK fields (0 fields = empty line) separated by ",", ending with a line break; '
+    'field classes: integer-valued number |v|<=999, NA, a non-numeric word; byte-level lexing (quotes, blanks, CR, empty fields, trailing separators, '
+    'byte-order mark, files shorter than 3 bytes) is outside',
+    'flag_header 0/1, nskip 0/1, ncol_max in -1..VF_NTOK, nrow_max in -1..VF_NLINES, verbose 0',
+    'csv_table_read compiled out of line (-fno-inline) so that its real counting logic is executed and only its iostream / string callees are abstract',
+]
+for _name, _rect, _what in (
+        ('ragged', 0, 'REAL csv_table_read on an arbitrary (ragged) file: at a successful return tab.size() == ncol * nrow (what Db::resetFromCSV assumes when it '
+                      'dimensions and loads the Db), counts non-negative, a header names exactly ncol columns'),
+        ('rect', 1, 'REAL csv_table_read on a rectangular file (every non-empty data line holds at least ncol fields): tab.size() == ncol * nrow, a header names '
+                    'exactly ncol columns, the values stored are the first ncol fields of the non-empty data lines in row order (NA / non-numeric: TEST)')):
+    for _nl, _nt, _tiers in ((3, 3, ('quick', 'thorough')), (4, 3, ('thorough',))):
+        K('C09.e.csv.%s.%d' % (_name, _nl), property='C09', engine='symex', harness='C09/csv.cpp', entry='k_csv',
+          tus=['/verif/harness/C09/inst_csv.cpp', 'src/Core/convert.cpp'],
+          defines={'all': {'VF_NLINES': _nl, 'VF_NTOK': _nt, 'VF_RECT': _rect}}, tiers=_tiers, cxxflags=['-fno-inline'],
+          bounds={'quick': 'file of 0..%d lines (header included), 0..%d fields per line, every field class; header 0/1, nskip 0/1, ncol_max -1..%d, nrow_max -1..%d'
+                           % (_nl, _nt, _nt, _nl)},
+          timeout_ms={'quick': 60000, 'thorough': 300000}, validate={'quick': 40, 'thorough': 80}, validate_doubles='int',
+          what=_what, out='lexing inside libstdc++, file open failure, the Db construction that follows (Db::resetFromCSV)',
+          assumptions=_CSV_ASSUME, stubs=_CSV_STUBS)
